@@ -384,7 +384,8 @@ func errClass(err error) int64 {
 }
 
 // ---- independent spec encoder (Solidity ABI), with a padding mask --------------
-// mask: 0 data, 1 padding the decoder is expected to tolerate, 2 padding it checks.
+// mask: 0 data, 1 padding the decoder is expected to tolerate, 2 padding it checks,
+// 3 structure (offset and length words).
 
 type part struct {
 	dyn   bool
@@ -412,7 +413,7 @@ func specTuple(ps []part) ([]byte, []byte) {
 	for _, p := range ps {
 		if p.dyn {
 			hb = append(hb, word(big.NewInt(int64(hl+len(tb))))...)
-			m := make([]byte, 32)
+			m := padMask(32, 0, 32, 3)
 			if p.faDyn {
 				for i := 0; i < 24; i++ {
 					m[i] = 1
@@ -456,7 +457,9 @@ func specEnc(t *T, v Sx) ([]byte, []byte) {
 		pad := (32 - len(b)%32) % 32
 		out := append(word(big.NewInt(int64(len(b)))), b...)
 		out = append(out, make([]byte, pad)...)
-		return out, padMask(len(out), 32+len(b), len(out), 1)
+		m := padMask(len(out), 32+len(b), len(out), 1)
+		copy(m, padMask(32, 0, 32, 3))
+		return out, m
 	case kArray, kFixedArray:
 		var ps []part
 		for _, x := range AsList(v) {
@@ -466,7 +469,7 @@ func specEnc(t *T, v Sx) ([]byte, []byte) {
 		b, m := specTuple(ps)
 		if t.kind == kArray {
 			b = append(word(big.NewInt(int64(len(ps)))), b...)
-			m = append(make([]byte, 32), m...)
+			m = append(padMask(32, 0, 32, 3), m...)
 		}
 		return b, m
 	case kTuple:
@@ -593,9 +596,30 @@ func runDecode(e *env, data []byte, res *Result) (SL, bool) {
 			if p2 != "" || c2 != 0 || String(v2) != String(vals) {
 				fails = append(fails, fmt.Sprintf("Unpack(Pack(decoded)) != decoded (class %d %s)", c2, p2))
 			}
-			sb, _ := specArgs(e.ts, vals)
+			sb, mask := specArgs(e.ts, vals)
 			if e.allOK(vals, true) && !bytes.Equal(sb, pb) {
 				fails = append(fails, "Pack(decoded) differs from the ABI specification encoding")
+			}
+			// canonical region: if the input carries the canonical offset and length words
+			// (so the decoder read the canonical layout), the re-encoding must agree with the
+			// input everywhere except on padding the decoder tolerates
+			if len(mask) == len(pb) && len(data) >= len(pb) {
+				same := true
+				for i := range pb {
+					if mask[i] == 3 && data[i] != pb[i] {
+						same = false
+						break
+					}
+				}
+				if same {
+					res.Tags = append(res.Tags, "canonical-layout")
+					for i := range pb {
+						if mask[i] != 1 && data[i] != pb[i] {
+							fails = append(fails, fmt.Sprintf("accepted input differs from its re-encoding at byte %d outside tolerated padding", i))
+							break
+						}
+					}
+				}
 			}
 		}
 	}
@@ -980,9 +1004,9 @@ func (g *gen) mutate(base []byte) ([]byte, string) {
 
 func genCases(r *Rng, tier string, emit func(Sx)) {
 	g := &gen{r: r}
-	n := 9000
+	n := 12000
 	if tier == "thorough" {
-		n = 250000
+		n = 200000
 	}
 	for i := 0; i < n; i++ {
 		ts, tsx := g.args()
